@@ -142,7 +142,7 @@ def run(ctx):
                     continue
                 compare((m, fl, sig, p), gs, gn, subs, mp, problems, scale)
             sig2 = r.choice(C.SIGS[dim])
-            p2 = r.choice(pts)
+            p2 = r.choice([q for q in pts if q != p])     # a difference of identical vectors has no azimuth
             sw, syms2 = sympy_vec("g", sig2, 2)
             nw = C.from_cart(fam, "g", sig2, [mp.mpf(x) for x in p2], mp)
             subs2 = dict(subs)
@@ -155,6 +155,30 @@ def run(ctx):
                     problems.append((f"raises:{m}", f"{m} on {fl}:{sig} x g:{sig2}: {type(e).__name__}: {str(e)[:100]}"))
                     continue
                 compare((m, fl, sig, sig2, p, p2), gs, gn, subs2, mp, problems, scale)
+            # operators and IN-PLACE operators of the SymPy backend (its own __array_ufunc__-free glue and _replace_data) against the
+            # same operator on the numeric object backend; in-place forms run on fresh copies and the UPDATED OBJECT is compared
+            ks, kn = sympy.Float("2.5", 50), mp.mpf("2.5")
+            ops = [("v + w", lambda a, b, k: a + b, False), ("v - w", lambda a, b, k: a - b, False), ("v * k", lambda a, b, k: a * k, False),
+                   ("k * v", lambda a, b, k: k * a, False), ("v / k", lambda a, b, k: a / k, False), ("-v", lambda a, b, k: -a, False),
+                   ("+v", lambda a, b, k: +a, False), ("abs(v)", lambda a, b, k: abs(a), False), ("v ** 2", lambda a, b, k: a ** 2, False),
+                   ("v += w", lambda a, b, k: a.__iadd__(b), True), ("v -= w", lambda a, b, k: a.__isub__(b), True),
+                   ("v *= k", lambda a, b, k: a.__imul__(k), True), ("v /= k", lambda a, b, k: a.__itruediv__(k), True)]
+            for name, f, inplace in ops:
+                if sig[-1] == "tau" and name in ("v - w", "v -= w", "-v"):
+                    continue            # exact result not representable with tau >= 0
+                n += 1
+                try:
+                    sa, _ = sympy_vec(fl, sig, 1, keywords=True)
+                    na = C.from_cart(fam, fl, sig, [mp.mpf(x) for x in p], mp)
+                    gs, gn = f(sa, sw, ks), f(na, nw, kn)
+                    if inplace:
+                        if gs is not sa:
+                            problems.append((f"inplace-identity:{name}", f"{name} on a SymPy {fl}:{sig} vector does not return the object itself"))
+                        gs, gn = sa, na
+                except Exception as e:  # noqa: BLE001
+                    problems.append((f"raises:{name}", f"{name} on {fl}:{sig} x g:{sig2}: {type(e).__name__}: {str(e)[:100]}"))
+                    continue
+                compare((name, fl, sig, sig2, p, p2), gs, gn, subs2, mp, problems, scale)
             if len(samples) < 3:
                 samples.append({"sig": sig, "flavor": fl, "point": p, "example": f"{m}: {str(gs)[:120]}"})
     return problems, {"expressions_evaluated": n}, samples
